@@ -1,5 +1,6 @@
 PROPERTY = {
     'id': 'C18',
+    'extra': ['bounded.c08_lines.run'],
     'contract_modules': ['doctest_example', 'doctest_part', 'parser'],
     'functions': ['xdoctest.doctest_part:DoctestPart.format_part', 'xdoctest.utils.util_str:indent',
                   'xdoctest.utils.util_str:add_line_numbers', 'xdoctest.utils.util_str:highlight_code',
@@ -9,6 +10,7 @@ PROPERTY = {
               'prompt lines in order, followed -- iff want=True and the part has a want -- by its want lines in order, joined by newlines: '
               'every source and want line once, nothing added, dropped, trimmed or reordered (loop invariant over the want lines)',
               'the line offsets the numbered display adds to (part.line_offset) are the true indices of the parts: _package_groups offset invariant'],
+        'B': ['the real freeform / google parsers on random docstrings: every (doctest line + part offset) points at the docstring line that holds the first source line of that part, and failed_lineno() at the statement that raised (bounded/c08_lines.py)'],
         'T': ["law of the builtins: '\\n'.join(xs).splitlines() == xs for plain lines (no embedded line boundary, last line not empty); "
               "join distributes over list concatenation"],
         'N/A': ['"parsing that text again yields the same doctest": a round trip through the tokenizer / ast based parser',
